@@ -200,4 +200,13 @@ func (c *Ctx) checkHandedOverBuffers(rule string, rels ...string) {
 		}
 	}
 	L.OK(rule, "scope", fmt.Sprintf("packages %v", rels), "-", fmt.Sprintf("%d calls of AddSequenceChar inside loops examined", nCalls))
+	if cp := c.Controls(); cp != nil {
+		n := 0
+		for _, fn := range cp.SrcFuncs() {
+			if fn.Parent() == nil {
+				n += len(sharedBuffersInLoops(fn))
+			}
+		}
+		L.ControlMustFire(rule, n > 0, "controls.SharedRowBuffer passes one buffer to AddSequenceChar in every iteration")
+	}
 }
